@@ -70,13 +70,14 @@ type Plan struct {
 	Pushes     []Push           `json:"pushes"`
 	Conns      []simnet.ConnCfg `json:"conns"`
 	Concurrent bool             `json:"concurrent"`
+	Packed     bool             `json:"packed"` // the server's references live in packed-refs only (state after pack-refs / gc)
 	Sched      sched.Schedule   `json:"sched"`
 }
 
 var refNames = []string{"refs/heads/main", "refs/heads/dev", "refs/heads/topic", "refs/tags/v1"}
 
 func genPlan(r *core.Rand, tier string) any {
-	p := &Plan{Seed: r.Uint64() % 5000, Commits: r.Range(3, 9)}
+	p := &Plan{Seed: r.Uint64() % 5000, Commits: r.Range(3, 9), Packed: r.Chance(1, 3)}
 	p.ServerHas = r.Range(1, p.Commits)
 	np := r.Range(1, 3)
 	for i := 0; i < np; i++ {
@@ -106,6 +107,22 @@ func genPlan(r *core.Rand, tier string) any {
 	}
 	if len(p.Pushes) >= 2 && r.Chance(1, 3) {
 		p.Concurrent = true
+		if r.Bool() {
+			// a duel: every push updates the same existing reference from the value it was advertised
+			ref := r.Pick2(0, 2)
+			for i := range p.Pushes {
+				p.Pushes[i].ReadAdv = true
+				p.Pushes[i].Cmds = []Cmd{{Ref: ref, Kind: 0, Old: 0, New: r.Intn(p.Commits)}}
+			}
+		}
+		if r.Bool() {
+			// random walk: the clients advance in near lock-step, so that their
+			// check-then-write windows overlap
+			n := r.Range(200, 2500)
+			for i := 0; i < n; i++ {
+				p.Sched.Uniform = append(p.Sched.Uniform, r.Intn(4))
+			}
+		}
 		n := r.Range(0, 6)
 		for i := 0; i < n; i++ {
 			p.Sched.Preempts = append(p.Sched.Preempts, sched.Preempt{At: r.Intn(300), Pick: r.Intn(4)})
@@ -184,6 +201,13 @@ func execPlan(t *testing.T, pa any) (out core.Outcome) {
 		model["refs/heads/topic"] = full.Commits[0].Hash
 		for n, h := range model {
 			_ = srvSt.SetReference(plumbing.NewHashReference(plumbing.ReferenceName(n), h))
+		}
+		if p.Packed {
+			if err := srvSt.PackRefs(); err != nil {
+				out.Inconclusive = "setup-failed"
+				return
+			}
+			out.Probe("server-refs-packed")
 		}
 		_ = srvSt.Close()
 		initial = map[string]plumbing.Hash{}
@@ -663,6 +687,6 @@ func TestCheck(t *testing.T) {
 		NewPlan:        func() any { return &Plan{} },
 		Gen:            genPlan,
 		Exec:           execPlan,
-		RequiredProbes: []string{"stale-old-sent", "missing-new-object-sent", "applied:update", "applied:create", "applied:delete", "concurrent-run"},
+		RequiredProbes: []string{"stale-old-sent", "missing-new-object-sent", "applied:update", "applied:create", "applied:delete", "concurrent-run", "server-refs-packed"},
 	})
 }
